@@ -89,6 +89,10 @@ def run(ctx):
             r1b.violation(key, "Z is %s, not derived from block_partitioning" % show(a["value"], 100), loc(a["sp"]))
     r1b.floor(4, "2 readers + 2 Z writes")
 
+    from . import c10
+    r6 = ctx.rule("C07.R6", "the (B, E) the receiver partitions with are the object's own: " + c10.EXTRACTION_TEXT + " (shared with C10.R6)", "fallback order + sibling agreement")
+    c10.receiver_extraction_rule(ctx, r6)
+    r6.floor(20, "extraction facts")
     z_range_rule(ctx, ctx.rule("C07.R5", Z_TEXT, "E4 range of the written value vs the reader's refusal"))
 
     # ---- R1c: the receiver hands its partition to block_length under the right parameter names --------------------------
